@@ -238,6 +238,7 @@ def run(prog: Program) -> Results:
             res.add("R-C01-6", fnd.key, fnd.where, fnd.message)
     presence_tests(prog, res, "R-C01-7", renderer_functions(prog, cg))
     marker_positions(prog, res, "R-C01-8")
+    no_greedy_strip(prog, res, "R-C01-10")
     no_text_rewriting(prog, res, "R-C01-9", renderer_functions(prog, cg) + [prog.func("NixSourceCode.rebuild")])
     res.assumptions = ["glue between adjacent tokens (separator presence), line-comment/newline adjacency and integer/let/trailing-"
                        "comma normalisations are value-level facts about concatenated strings and are not decided"]
@@ -447,3 +448,32 @@ def no_text_rewriting(prog: Program, res: Results, rid: str, functions) -> None:
             res.add(rid, (f.key, "rendered text rewritten", c.func.attr), f.loc(c),
                     f"{f.key}: `{norm(c)[:80]}` rewrites text that already contains rendered expressions: the pattern also matches "
                     f"inside string literals, indented strings and comments, whose contents (tokens) change in a round trip")
+
+
+# ------------------------------------------------------------------------------------------------ greedy strip of token text
+def no_greedy_strip(prog: Program, res: Results, rid: str) -> None:
+    r = res.rule(rid, "delimiters are cut off token text by position (one at each end), never by a greedy strip: no from_cst "
+                 "closure applies strip/lstrip/rstrip with non-whitespace characters to source text (a string ending in an escaped "
+                 "quote `\\\"` would lose the quote of its escape as well)", floor=20)
+    cg = CallGraph(prog)
+    roots = [f.key for f in prog.all_functions() if f.name == "from_cst" and f.cls]
+    closure = cg.reachable(roots)
+    for k in sorted(closure):
+        f = prog.funcs[k]
+        if f.module.startswith(("nix_manipulator/cli/", "nix_manipulator/resolution.py")) or f.name in ("rebuild", "__str__", "__repr__") \
+                or k.startswith("_resolve_identifier"):
+            continue
+        r.instances += 1
+        bad = []
+        for c in walk_no_nested(f.node):
+            if isinstance(c, ast.Call) and isinstance(c.func, ast.Attribute) and c.func.attr in ("strip", "lstrip", "rstrip") and c.args \
+                    and isinstance(c.args[0], ast.Constant) and isinstance(c.args[0].value, (str, bytes)):
+                chars = c.args[0].value
+                chars = chars.decode("latin1") if isinstance(chars, bytes) else chars
+                if chars.strip(" \t\r\n") != "":
+                    bad.append(c)
+        r.ob(not bad, None if not bad else {"site": k, "strips": [norm(c)[:50] for c in bad]})
+        for c in bad:
+            res.add(rid, (k, "greedy strip of token text", norm(c.args[0])), f.loc(c),
+                    f"{k}: `{norm(c)[:70]}` removes every leading/trailing `{norm(c.args[0])}` character, not one delimiter: the body of "
+                    f"`\"echo \\\\\"hi\\\\\"\"` loses the quote of its final escape, and the rebuilt literal no longer parses")
